@@ -16,6 +16,8 @@ replay = F.replay
 
 def run(ctx, model_ok, deep=False):
     F.run_suites(ctx, model_ok, deep, [
+        ("programs", S.programs_suite, S.falsify_programs,
+         "110 (quick) / 1500 (thorough) random programs of 55-70 API calls over 3 checkers, 3 builders, every pool key (with/without alg attribute, private/public), callbacks, clocks and both providers; every answer compared with the model; 60% of the verifies and generates are asked of a fresh twin configured by the same calls first", False),
         ("callback-admission", S.callback_admission_suite, S.falsify_accept,
          "per key x alg attribute (absent, two admissible) x algorithm left by the callback (none, four of the family, one foreign) x style (writes alg only and keeps the key setkey installed / re-installs the same item / reads the configuration first) x header alg in {attribute, callback alg, admissible}: validly signed token accepted exactly when the documented setkey table admits (alg, key) and the pinned algorithm is the header's", False),
         ("callbacks", S.callbacks_suite, S.falsify_callbacks,
